@@ -112,6 +112,19 @@ impl Regex {
     // actually used. - it seems vastly complicated.
 }
 
+#[cfg(regexml_verif)]
+impl Regex {
+    /// Verification hook: like `xpath` / `xsd`, optionally with all compile-time
+    /// optimisations switched off.
+    pub fn verif_new(re: &str, flags: &str, xsd: bool, optimize: bool) -> Result<Self, Error> {
+        crate::verif::set_no_optimize(!optimize);
+        let language = if xsd { Language::XSD } else { Language::XPath };
+        let r = Self::new(re, flags, language);
+        crate::verif::set_no_optimize(false);
+        r
+    }
+}
+
 #[derive(Debug)]
 pub struct TokenIter<'a> {
     matcher: ReMatcher<'a>,
